@@ -2911,7 +2911,7 @@ def run(chk: core.Check):
     chk.lean = LockedLean(core.LeanDriver("C13"))
     check_labels(chk)
     rng = chk.rng
-    n = chk.pick(600, 4500)
+    n = chk.pick(600, 4300)          # (thorough: 200 cases / 40 sessions moved to extension 4 below)
     max_m = chk.pick(3, 4)
     max_depth = chk.pick(2, 3)
     max_ops = chk.pick(6, 10)
@@ -2923,7 +2923,7 @@ def run(chk: core.Check):
         handle_procs(chk, [c for c in corpus if c["kind"] == "proc"])
     cases = [gen_case(chk, rng, max_m, max_depth, max_ops, nmax) for _ in range(n)]
     cases += [gen_case_ext(chk, rng, max_m, max_depth, max_ops, nmax) for _ in range(chk.pick(300, 2600))]
-    ns = chk.pick(120, 600)
+    ns = chk.pick(120, 560)
     sessions = [gen_session(chk, rng, max_m, max_depth, max_ops, nmax, chk.pick(4, 6)) for _ in range(ns)]
     pipelined(chk, [cases[i:i + 100] for i in range(0, len(cases), 100)], prepare_batch, finish_batch)
     pipelined(chk, [sessions[i:i + 30] for i in range(0, len(sessions), 30)], prepare_sessions, finish_sessions)
